@@ -159,8 +159,76 @@ def replay(path):
 
 
 def selftest():
-    print("selftest not yet implemented")
-    return 0
+    """Binding and non-vacuity demonstrations (not a property check):
+    layer-0 arithmetic against python integers, layer-1 against published known-answer vectors, every
+    negative-control model must yield a counterexample, and a recorded trace with ONE corrupted field
+    must be rejected exactly at that event."""
+    import copy, random
+    ok = True
+    wd = vlib.workdir("selftest")
+
+    def say(name, good, detail=""):
+        nonlocal ok
+        ok = ok and good
+        print("%-68s %s %s" % (name, "ok" if good else "FAILED", detail))
+    # layer 0 / layer 1
+    cases = os.path.join(wd, "words_cases.ndjson")
+    subprocess.run([sys.executable, os.path.join(vlib.ROOT, "tools", "gen_words_cases.py"), cases], check=True, stdout=subprocess.DEVNULL)
+    r = vlib.run_tlc(os.path.join(vlib.SPEC, "mc", "MC_WordsTest.tla"), os.path.join(vlib.SPEC, "mc", "MC_WordsTest.cfg"), os.path.join(wd, "m1"), env={"CASES": cases})
+    say("Words.tla vs python integers (%d cases)" % (r["states"] - 1), r["completed"])
+    r = vlib.run_tlc(os.path.join(vlib.SPEC, "mc", "MC_Vectors.tla"), os.path.join(vlib.SPEC, "mc", "MC_Vectors.cfg"), os.path.join(wd, "m2"),
+                     env={"VECTORS": os.path.join(vlib.SPEC, "vectors.ndjson")}, workers=4, timeout=1500)
+    say("layer-1 algorithms vs published known-answer vectors (%d vectors)" % (r["states"] - 1), r["completed"])
+    # negative controls
+    for mod, cfg in (("MC_JitterApi", "neg/MC_JitterApi_clonecopies.cfg"), ("MC_Seeding", "neg/MC_Seeding_noremap.cfg"),
+                     ("MC_CloneEq", "neg/MC_CloneEq_Hc128_noindex.cfg"), ("MC_CloneEq", "neg/MC_CloneEq_Isaac64_nohalf.cfg"),
+                     ("MC_Instances", "neg/MC_Instances_global.cfg"), ("MC_Instances", "neg/MC_Instances_tls.cfg"), ("MC_TestTimer", "MC_TestTimer_today.cfg")):
+        r = vlib.run_tlc(os.path.join(vlib.SPEC, "mc", mod + ".tla"), os.path.join(vlib.SPEC, "mc", cfg), os.path.join(wd, "n_" + os.path.basename(cfg)), workers=4, timeout=900)
+        say("negative control %s yields a counterexample" % cfg, "is violated" in r["out"])
+    # corrupted traces
+    rng = random.Random(7)
+    binp = vlib.build_harness()
+
+    def record(S, tag):
+        sp, tp = os.path.join(wd, tag + ".s"), os.path.join(wd, tag + ".t")
+        vlib.write_ndjson(sp, S.lines())
+        vlib.drive(binp, sp, tp)
+        return vlib.read_ndjson(tp)
+
+    def validate(evs, spec, tag):
+        tp = os.path.join(wd, tag + ".v")
+        vlib.write_ndjson(tp, evs)
+        r = vlib.run_tlc(os.path.join(vlib.SPEC, "trace", spec + ".tla"), os.path.join(vlib.SPEC, "trace", spec + ".cfg"), os.path.join(wd, "v_" + tag), env={"TRACE": tp})
+        return vlib.parse_trace_result(r, len(evs))
+    trials = []
+    S = vlib.Sched()
+    S.case("x", [{"op": "from_seed", "g": 1, "kind": "Xoshiro256StarStar", "seed": [rng.getrandbits(8) for _ in range(32)]}] + [{"op": "next_u64", "g": 1, "n": 3} for _ in range(6)])
+    ev = record(S, "alg")
+    trials.append(("Trace_Alg", ev, 5, lambda e: e["ret"][1].__setitem__(2, e["ret"][1][2] ^ 1), "one limb of one returned word"))
+    trials.append(("Trace_Alg", ev, 4, lambda e: e["obs"]["s"][3].__setitem__(0, e["obs"]["s"][3][0] ^ 0x8000), "one limb of a state image"))
+    S = vlib.Sched()
+    S.case("x", corpora.api_case_ops("Isaac64Rng", [("next_u32", 0), ("fill_bytes", 13), ("next_u32", 0), ("next_u64", 0), ("fill_bytes", 2051), ("next_u32", 0)], rng))
+    ev = record(S, "api")
+    k = next(i for i, e in enumerate(ev) if e.get("e") == "fill_bytes" and e.get("n") == 2051)
+    trials.append(("Trace_Stream", ev, k + 1, lambda e: e["ret"].__setitem__(2050, e["ret"][2050] ^ 4), "the last byte of a 2051-byte fill"))
+    S = vlib.Sched()
+    S.case("x", corpora.jitter_case(rng, "quick", ["random"]))
+    ev = record(S, "jit")
+    k = next(i for i, e in enumerate(ev) if e.get("e") in ("next_u64", "next_u32") and len(e.get("reads", [])) > 4)
+    trials.append(("Trace_Jitter", ev, k + 1, lambda e: e["reads"].pop(), "one timer reading removed from a collection"))
+    trials.append(("Trace_Jitter", ev, k + 1, lambda e: e["obs"].__setitem__("mpi", (e["obs"]["mpi"] + 31) % 2048), "the memory-walk position"))
+    for spec, evs, line, mut, what in trials:
+        good = validate(copy.deepcopy(evs), spec, "ok")
+        bad = copy.deepcopy(evs)
+        mut(bad[line - 1])
+        res = validate(bad, spec, "bad")
+        say("%s: unmodified trace accepted; corrupting %s rejected at that event" % (spec, what),
+            good["status"] == "accepted" and res["status"] == "rejected" and res.get("at") == line, "(rejected at %s, expected %d)" % (res.get("at"), line))
+    # without the hook observations C15 must be a tool error, not a pass
+    print("selftest: %s" % ("all demonstrations hold" if ok else "SOME DEMONSTRATION FAILED"))
+    import shutil
+    shutil.rmtree(wd, ignore_errors=True)
+    return 0 if ok else 2
 
 
 # ---------------------------------------------------------------- C05
